@@ -61,7 +61,7 @@ def protoOk (m : Mon) (o : Op) : Bool :=
   | .pRegister => !m.parentReg
   | .pUnregister => m.parentReg
   | .pReregister => m.parentReg
-  | .pe _ => m.parentReg && !m.dirty
+  | .pe _ => m.parentReg && (!m.dirty || m.cur.isNone)   -- (with no current child left there is nothing to forward to, change pending or not)
   | .tsRemove => !m.dirty
   | .tsReplace c => !m.dirty && !m.seen.contains c
   | .map | .isNone => true
